@@ -437,6 +437,18 @@ func c14Decorator(w *World) {
 	}
 	tr := &cfg.Resources[len(cfg.Resources)-1]
 	tr.IgnoreStatus = t.Pick(2, "ignorestatus") == 1
+	// in a third of the runs the decorator has a customize hook naming a Secret: a change
+	// to that Secret has to wake the targets in its namespace
+	customize := t.Pick(3, "decorator-customize") == 2
+	if customize {
+		cfg.Customize = true
+		ds.Progs[cfg.Name].Customize = func(req Object) Object {
+			return Object{"relatedResources": []interface{}{Object{"apiVersion": "v1", "resource": "secrets", "names": []interface{}{"r0"}}}}
+		}
+		populateRelated(w)
+		w.InlineUnsyncedHooks = true
+		w.Cfg["customize"] = "true"
+	}
 	EditObject(w, ResDecoratorCtl, "", cfg.Name, "setup", func(o Object) { o["spec"] = cfg.Object()["spec"] })
 	w.ResyncHint = 0
 	sig := copySig(ds.Sig)
@@ -463,6 +475,9 @@ func c14Decorator(w *World) {
 				if twoRules {
 					events = append(events, "target-spec-while-discovery-of-the-other-rule-is-down", "target-spec-while-discovery-of-the-other-rule-is-down")
 				}
+				if customize {
+					events = append(events, "related-edit", "related-edit")
+				}
 				name = events[w.T.Pick(len(events), "event")]
 				w.FaultsFired["event:"+name]++
 				p := ds.Targets[w.T.Pick(len(ds.Targets), "which")]
@@ -472,6 +487,15 @@ func c14Decorator(w *World) {
 				}
 				key := p.NS + "/" + p.Name
 				switch name {
+				case "related-edit":
+					if EditObject(w, ResSecret, p.NS, "r0", "user", func(o Object) { setPath(o, fmt.Sprint(w.step), "data", "v") }) {
+						for _, q := range ds.Targets {
+							if qo := q.Get(w); q.NS == p.NS && selected(qo) && metaRO(qo)["deletionTimestamp"] == nil {
+								mustSync[q.NS+"/"+q.Name] = true
+							}
+						}
+						w.Probe("c14:related-object-of-a-decorator-edited")
+					}
 				case "target-spec-while-discovery-of-the-other-rule-is-down":
 					// the document of the first rule's group-version is unavailable and the
 					// resource map has dropped it; a target of the second rule changes; then
